@@ -74,4 +74,9 @@ Definition spec_decrypt (n d : Z) (enc : list Z) : option (list Z) :=
     let kdk := hmac (hash (be_bytes (Z.to_nat k) d)) enc in
     Some (spec_decrypt_em k em (prf_spec kdk label_length 2048) (prf_spec kdk label_message (k * 8)))
   else None.
+
+(* the invariant of the per-key-object cache RSAKey._key_hash, as decrypt finds it: missing, empty,
+   or the SHA-256 of the private exponent -- on EVERY way a key object comes into existence *)
+Definition cache_ok (n d : Z) (c : option (list Z)) : Prop :=
+  c = None \/ c = Some [] \/ c = Some (hash (be_bytes (Z.to_nat (numBytes n)) d)).
 End WithOracles.
